@@ -620,6 +620,7 @@ fn parse_extras_cursor<T: Pep508Url>(
         };
 
         // First char of the identifier.
+        let name_start = cursor.pos();
         match cursor.next() {
             // letterOrDigit
             Some((_, alphanumeric @ ('a'..='z' | 'A'..='Z' | '0'..='9'))) => {
@@ -660,10 +661,15 @@ fn parse_extras_cursor<T: Pep508Url>(
         // wsp* after the identifier
         cursor.eat_whitespace();
 
-        // Add the parsed extra
-        extras.push(
-            ExtraName::new(buffer).expect("`ExtraName` validation should match PEP 508 parsing"),
-        );
+        // Add the parsed extra. The scan above accepts trailing punctuation (`[a-]`), the
+        // name validation does not.
+        let name_len = buffer.len();
+        extras.push(ExtraName::new(buffer).map_err(|err| Pep508Error {
+            message: Pep508ErrorSource::String(err.to_string()),
+            start: name_start,
+            len: name_len,
+            input: cursor.to_string(),
+        })?);
         is_first_iteration = false;
     }
 
